@@ -102,7 +102,7 @@ class Stepper(object):
             self.sync_twin()
         elif k == "g":
             try:
-                raw = h.gcode_raw(op[1])
+                raw = h.gcode_raw(op[1], op[2] if len(op) > 2 else "file")
             except Exception as exc:  # pylint: disable=broad-except
                 raw = ("exception", type(exc).__name__)
             if not self.active:
@@ -197,9 +197,9 @@ def machine(tier, col):  # pylint: disable=unused-argument
                 self.do(["g", "G28"])
                 self.do(["g", "G1 X1 Y1 Z0.2 F3000"])
 
-        @rule(cmd=st.sampled_from(GCODES))
-        def gcode(self, cmd):
-            self.do(["g", cmd])
+        @rule(cmd=st.sampled_from(GCODES), source=st.sampled_from(["file", "file", "api", "plugin:other", "none"]))
+        def gcode(self, cmd, source):
+            self.do(["g", cmd, source])
 
         @rule(cmd=st.sampled_from(GCODES[:6]))
         def gcode_moves(self, cmd):
